@@ -72,6 +72,7 @@ func f8Input() []byte {
 type mdClass struct {
 	ok       bool   // reference says: decodes
 	known    string // known finding this input runs into first ("" = none)
+	strict   bool   // well-formed by the strictest reading of the format (every extra <= maxExtraLen)
 	oversize bool   // decodes, but holds an extra attribute longer than maxExtraLen (Bytes() panics: same finding)
 	attrs    int
 	pastTags bool // at least one attribute framed
@@ -84,6 +85,7 @@ func classifyTxMetadata(b []byte) mdClass {
 	}
 	i := 0
 	lastExtra := -1
+	anyOversize := false
 	for i != len(b) {
 		code := b[i]
 		i++
@@ -103,6 +105,7 @@ func classifyTxMetadata(b []byte) mdClass {
 				return c
 			}
 			lastExtra = n
+			anyOversize = anyOversize || n > maxExtraLen
 			i += 2 + n
 		default:
 			return c
@@ -115,6 +118,7 @@ func classifyTxMetadata(b []byte) mdClass {
 		c.known = kfF4 // decodes, but the value cannot be re-encoded (serialize slices a 258-byte array)
 	}
 	c.ok = true
+	c.strict = !anyOversize
 	return c
 }
 
@@ -154,8 +158,11 @@ func checkTxMetadata(b []byte, honorKnown bool) string {
 	if m := r.verdict("TxMetadata.ReadFrom("+hexs(b)+")", len(b)); m != "" {
 		return m
 	}
-	if cl.known == "" && cl.ok != (err == nil) {
-		return fmt.Sprintf("TxMetadata.ReadFrom(%s): err=%v but the reference framing says decodable=%v", hexs(b), err, cl.ok)
+	if cl.known == "" && cl.ok && cl.strict && err != nil {
+		return fmt.Sprintf("TxMetadata.ReadFrom(%s): err=%v for a well-formed encoding", hexs(b), err)
+	}
+	if !cl.ok && cl.known == "" && err == nil {
+		return fmt.Sprintf("TxMetadata.ReadFrom(%s) accepted an encoding that is not well-formed", hexs(b))
 	}
 	return ""
 }
@@ -474,8 +481,10 @@ func checkTxHeader(b []byte, honorKnown bool) string {
 	if m := r.verdict("TxHeader.ReadFrom("+hexs(b)+")", len(b)); m != "" {
 		return m
 	}
-	if cl.known == "" && cl.ok != (err == nil) {
-		return fmt.Sprintf("TxHeader.ReadFrom(%s): err=%v but the reference framing says decodable=%v", hexs(b), err, cl.ok)
+	// only the sound direction is asserted: what the reference framing rejects must not decode (the lenient
+	// cases - a version-1 header one or two bytes short of BlRoot - may be accepted or refused)
+	if cl.known == "" && !cl.ok && err == nil {
+		return fmt.Sprintf("TxHeader.ReadFrom(%s) accepted an encoding that is not well-formed", hexs(b))
 	}
 	return ""
 }
